@@ -42,18 +42,20 @@ def run(ctx):
         res = tlc.run("Merge", cfg, tag="c19mc", timeout=6000)
         ctx.add_tlc(res, "M:" + cfg)
     for q in ("SkipWiderSecond", "StaleItems", "TopReadAsBottom"):
-        res = tlc.run("Merge", "MergeMC_kf_%s.cfg" % q, expect_violation=True, tag="c19kf", timeout=3000)
+        res = tlc.run("Merge", "MergeMC_kf_%s.cfg" % q, expect_violation=True, tag="c19kf", timeout=3000, workers=2)
         if not res.violation or "Covers" not in res.violation:
             raise tlc.MachineryError("model: quirk %s alone does not violate Covers" % q)
     ctx.note("quirks_rejected_by_model", ["SkipWiderSecond", "StaleItems", "TopReadAsBottom"])
     ctx.note("selftest_fault_detected_by_model", res.violation)
     if quick:
-        tr = c19run.generate(ctx, "MergeGen_small.cfg", "small", stride=211)
-        tr += c19run.generate(ctx, "MergeSim.cfg", "sim", simulate="num=250", depth=9)
+        tr = c19run.generate(ctx, "MergeGen_tiny.cfg", "tiny", limit=150)
+        tr += c19run.generate(ctx, "MergeGen_small.cfg", "small", simulate="num=40", depth=5, limit=150)
+        tr += c19run.generate(ctx, "MergeSim.cfg", "sim", simulate="num=40", depth=9, limit=200)
         tr += c19run.drive(ctx, 250)
     else:
-        tr = c19run.generate(ctx, "MergeGen_small.cfg", "small", stride=17)
-        tr += c19run.generate(ctx, "MergeSim.cfg", "sim", simulate="num=4000", depth=9)
+        tr = c19run.generate(ctx, "MergeGen_tiny.cfg", "tiny")           # every behaviour of the tiny model
+        tr += c19run.generate(ctx, "MergeGen_small.cfg", "small", limit=4000)
+        tr += c19run.generate(ctx, "MergeSim.cfg", "sim", simulate="num=400", depth=9, limit=4000)
         tr += c19run.drive(ctx, 4000)
     c19run.validate(ctx, tr, "all")
     ctx.exhaustive = False
